@@ -1027,6 +1027,9 @@ func NewEvent(mach *Machine, machApi Api) *Event {
 
 // Mutation returns the Mutation of an Event.
 func (e *Event) Mutation() *Mutation {
+	if e.Machine() == nil {
+		return nil
+	}
 	t := e.Machine().Transition()
 	if t == nil {
 		return nil
@@ -1098,12 +1101,13 @@ func (e *Event) SwapArgs(args A) *Event {
 }
 
 func (e *Event) String() string {
-	mach := e.Machine()
-	if mach == nil {
-		return e.Mutation().String()
+	mut := e.Mutation()
+	if mut == nil {
+		// no machine, or the transition has ended already
+		return e.Name
 	}
 
-	return e.Mutation().StringFromIndex(mach.StateNames())
+	return mut.StringFromIndex(e.Machine().StateNames())
 }
 
 // ///// ///// /////
